@@ -120,6 +120,14 @@ def generate(rng, tier):
             line = f"qattr {q} {nc} {','.join(str(f32_bits(v)) for v in vals)}"
         xs = [f32_bits(v) for v in vals]
         cases.append(Case(line, oracle=oracle(q, nc, xs, explicit), tags=tags, nontrivial=kind != 0))
+    # fixed instances at the upper box corner (x = origin + range): from 23 bits on the real code quantizes them to
+    # k = 2^q (one above max_quantized_value; DracoProps.C12 header); at 22 bits k = 2^q - 1.  Compared bit for bit
+    # with the Float32 model and subject to the C04 bound like every other case (the excess R/M is within the box
+    # allowance); k itself is not constrained by C04.
+    for q, xb, rb, mb in ((23, 1036831949, 1036831949, 0), (24, 1036831949, 1036831949, 0), (22, 1036831949, 1036831949, 0),
+                          (23, 983777070, 969011566, 979731877), (23, 0x4458398e, 0x44582e6d, 0x3e321517),
+                          (25, 0x40c922ba, 0x40985f9e, 0x3fc30c71)):
+        cases.append(Case(f"qattr {q} 1 {xb} {rb} {mb}", oracle=oracle(q, 1, [xb], True), tags=("explicit", "upper_corner_k_exceeds")))
     # rejected inputs: NaN / Inf / invalid bit counts must fail on both sides
     for special in (0x7fc00000, 0x7f800000, 0xff800000):
         cases.append(Case(f"qattr 10 1 {f32_bits(1.0)},{special},{f32_bits(2.0)}", tags=("nan_inf_rejected",)))
